@@ -264,7 +264,7 @@ func CheckStateN(st *State, m *model.MapModel, ids, keys []string, rich, nested 
 		want := model.MakeDoc(id, v, rich).ExpectStored()
 		if nested {
 			for f := range want {
-				if strings.HasPrefix(f, "items.") {
+				if strings.HasPrefix(f, "items.") || strings.HasPrefix(f, "extras.") {
 					delete(want, f)
 				}
 			}
